@@ -1153,3 +1153,16 @@ Proof.
     assert (Z.of_nat (length (as_tr a)) * C <= Z.of_nat (slots files) * C); [|lia].
     apply Z.mul_le_mono_nonneg_r; [assumption | lia].
 Qed.
+
+(* ---------- admitted files: the footprint the reward walk multiplies out fits int64 ---------- *)
+Lemma admissible_footprint_fits size mp n :
+  post_admissible size mp = true -> 0 <= n <= mp ->
+  0 <= size * n <= int64_max /\ wrap64 (size * n) = size * n.
+Proof.
+  unfold post_admissible. rewrite !Bool.andb_true_iff, !Z.ltb_lt, Z.leb_le. intros [[Hs Hm] Hd] Hn.
+  assert (Hmax : 0 <= int64_max) by (unfold int64_max; lia).
+  assert (size * mp <= int64_max).
+  { pose proof (Z.mul_div_le int64_max mp Hm). nia. }
+  assert (B : 0 <= size * n <= int64_max) by nia.
+  split; [exact B|]. apply wrap64_id. unfold int64_min. lia.
+Qed.
